@@ -141,9 +141,16 @@ def exec_line(spec):
             want, _tail = ref_split(streams[i])
             if got[i] != want:
                 clause = 'line-sequence' if mode == 'client' else 'line-sequence-server'
+                def short(x):
+                    x = x if isinstance(x, (bytes, list)) else repr(x)
+                    if isinstance(x, list):
+                        x = [short(y) for y in x]
+                        return x if len(x) <= 8 else x[:4] + ['... %d more ...' % (len(x) - 8)] + x[-4:]
+                    return x if len(x) <= 80 else x[:40] + b'...(%d bytes)...' % len(x) + x[-20:]
                 return Result(False, clause, '%s: socket %d received %r in reads %r: lines %r, expected %r' % (
-                    where, i, streams[i], [r[1].encode('latin-1') for r in reads if (r[0] if mode == 'server' else 0) == i],
-                    got[i], want))
+                    where, i, short(streams[i]),
+                    short([(r[1] if isinstance(r[1], str) else r[1][0] * r[1][1]).encode('latin-1') for r in reads if (r[0] if mode == 'server' else 0) == i]),
+                    short(got[i]), short(want)))
         if tap.errors:
             return Result(False, 'line-handler-error', '%s: %r' % (where, tap.errors[:2]))
         return None
@@ -154,6 +161,9 @@ def exec_line(spec):
         pending_before = [False] * nsock
         for k, (si, chunk, tick) in enumerate(reads):
             si = si if mode == 'server' else 0
+            if isinstance(chunk, list):          # [unit, n]: a long run, written compactly
+                chunk = chunk[0] * chunk[1]
+                seen.add('long-run')
             data = chunk.encode('latin-1')
             if not data:
                 seen.add('empty-read')
@@ -654,6 +664,17 @@ class C18(Prop):
                             reads.append([sk, s[i], 1 if sk == 2 else 0])
                     if reads:
                         specs.append({'part': 'line', 'mode': 'server', 'nsock': 3, 'reads': reads})
+
+        # (a2) lines far longer than any read: the unterminated tail is held over hundreds of reads
+        for total in ((70000, 200000) if quick else (70000, 200000, 1100000)):
+            reads = [[0, ['ab' + E_ACUTE[:1], 1365], 1] for _ in range(total // 4095)] + [[0, 'end\r', 1], [0, '\nnext\n', 1], [0, 'tail', 1]]
+            specs.append({'part': 'line', 'mode': 'client', 'nsock': 1, 'reads': reads})
+            sreads = []
+            for i, r in enumerate(reads):
+                sreads.append([0] + r[1:])
+                if i % 7 == 0:
+                    sreads.append([1, 'x' if i % 14 else 'y\n', 1])
+            specs.append({'part': 'line', 'mode': 'server', 'nsock': 2, 'reads': sreads})
 
         # (b) every string in every argument position
         strings = _all_strings(ALPHABET, 3 if quick else 4)
